@@ -69,6 +69,27 @@ def check_signature_clone(ctx, rule):
             st = [e for e in sp.events if e.kind == 'store' and isinstance(e.target, ast.Attribute) and e.target.attr == 'nodes']
             okc = len(st) == 1 and src(st[0].expr) in ('copy(self.nodes)', 'dict(self.nodes)', 'self.nodes.copy()', 'copy.copy(self.nodes)') \
                 and src(sp.value) == 'SignatureNodes()'
+    if not okc:
+        # the same thing as a constructor argument: clone returns SignatureNodes(self.nodes) and __init__ stores a COPY of what it is
+        # given; storing the argument itself is the aliasing the rule is about
+        sn_cls = ctx.prog.cls(f'{N.DOCUMENT}.SignatureNodes')
+        init_sn = sn_cls.methods.get('__init__')
+        rets_ = [v_ for _, v_, _ in symex.returns(cl)]
+        if init_sn is not None and len(rets_) == 1 and isinstance(rets_[0], ast.Call) and F.constructed_class(ctx, rets_[0], cl) is sn_cls \
+                and (rets_[0].args or rets_[0].keywords):
+            b_ = F.bind_args(rets_[0], init_sn, True)
+            given = [k_ for k_, v_ in b_.items() if src(v_) == 'self.nodes']
+            if len(given) == 1:
+                stores_ = [a_ for a_ in walk_local(init_sn.node) if isinstance(a_, ast.Assign) and any(src(t_) == 'self.nodes' for t_ in a_.targets)]
+                texts = ' '.join(src(a_.value) for a_ in stores_)
+                g_ = given[0]
+                copies = any(f'{fn}({g_})' in texts for fn in ('copy', 'dict', 'copy.copy')) or f'{g_}.copy()' in texts
+                aliases = any(F.is_name(a_.value, g_) for a_ in stores_) or any(
+                    isinstance(a_.value, ast.IfExp) and (F.is_name(a_.value.body, g_) or F.is_name(a_.value.orelse, g_)) for a_ in stores_)
+                if copies and not aliases:
+                    okc = True
+                elif not aliases:
+                    raise AnalysisError(f'{cl.loc}: SignatureNodes.clone hands self.nodes to the constructor; what __init__ stores (`{texts[:60]}`) is not followed')
     ctx.check(okc, rule, cl.loc, cl.qualname, 'clone-copies-dict',
               'SignatureNodes.clone returns a new object holding a copy of the dict',
               'SignatureNodes.clone does not copy the dict: the clone aliases the original context')
